@@ -111,11 +111,22 @@ func c14(p *an.Prog, r *an.R, tier string) {
 			case *ast.BinaryExpr:
 				// size > SizeMax && !IgnoreSizeMax(path)
 				if x.Op == token.LAND {
+					// either order of the two conjuncts; `size > max` or `max < size`
 					l, okL := ast.Unparen(x.X).(*ast.BinaryExpr)
 					u, okU := ast.Unparen(x.Y).(*ast.UnaryExpr)
-					if okL && okU && l.Op == token.GTR && u.Op == token.NOT {
+					if !okL || !okU {
+						l, okL = ast.Unparen(x.Y).(*ast.BinaryExpr)
+						u, okU = ast.Unparen(x.X).(*ast.UnaryExpr)
+					}
+					var maxSide ast.Expr
+					if okL && l.Op == token.GTR {
+						maxSide = l.Y
+					} else if okL && l.Op == token.LSS {
+						maxSide = l.X
+					}
+					if okL && okU && maxSide != nil && u.Op == token.NOT {
 						mentionsMax := false
-						ast.Inspect(l.Y, func(m ast.Node) bool {
+						ast.Inspect(maxSide, func(m ast.Node) bool {
 							if se, ok := m.(*ast.SelectorExpr); ok && info.Selections[se] != nil && info.Selections[se].Obj() == sizeMax {
 								mentionsMax = true
 							}
